@@ -31,7 +31,7 @@ ASSUMPTIONS = ['with a swallowing host callback (attempt) only "no node passes t
                'the effect log sees host probe calls, writes to the names mapping and the mutating builtins; other in-place effects (x += list) surface through the names write that follows them']
 REAL = ['smartquery.*']
 STUB = ['host callbacks t / call / attempt']
-REACH_PROBES = ('nested_eval_reentry', 'abort_inside_lambda', 'abort_inside_hof', 'abort_after_effect', 'cross_eval_lambda_called',
+REACH_PROBES = ('ops_lower_bound_checked', 'nested_eval_reentry', 'abort_inside_lambda', 'abort_inside_hof', 'abort_after_effect', 'cross_eval_lambda_called',
                 'swallowing_host', 'default_budget_checked', 'kill_twin_compared', 'full_sweep')
 
 
@@ -80,7 +80,7 @@ def generate(seed, tier):
                 prog[1].insert(at, ['assign', 'r', st])
                 if ro.random() < 0.35:
                     # a host callback re-enters the parser (nested eval) before the stored lambda is invoked
-                    prog[1].insert(ro.randrange(at + 1), ['call', 're', [], 'plain'])
+                    prog[1].insert(ro.randrange(at + 1), ['call', 're', [['num', str(ro.choice([0, 1, 1, 2, 2]))]], 'plain'])
         ops.append({'op': 'eval', 'prog': prog, 'style': gen.style(S['render']), 'kinds': sorted(g.kinds)})
         model.run(prog)
     return {'world': world, 'ops': ops, 'cross': cross}
@@ -92,8 +92,19 @@ def _pre_state(case):
     names = RecDict(W.names)
 
     def reenter(*a):
+        # nested evaluation on the same parser from inside a host callback: a call of its own (own VM state, own
+        # budget); variants: 0 succeeds, 1 fails at run time inside a lambda, 2 runs out of its own budget - the host
+        # swallows the failure and the outer evaluation goes on
+        k = int(a[0]) if a else 0
         with monitors.suspended():
-            return W.parser.eval('[1, 2] | map(v => v + 1)', {}, max_ops_evaluated=50)
+            try:
+                if k == 1:
+                    return W.parser.eval('[1, 2] | map(v => v + undefined_inner)', {}, max_ops_evaluated=50)
+                if k == 2:
+                    return W.parser.eval('[1, 2, 3, 4] | map(v => v + 1)', {}, max_ops_evaluated=6)
+                return W.parser.eval('[1, 2] | map(v => v + 1)', {}, max_ops_evaluated=50)
+            except Exception:
+                return 'inner-failed'
     W.host.on_reenter = reenter
     for op in case['ops'][:-1]:
         real_eval(W.parser, lang.render(op['prog'], op.get('style', 0)), names, budget=10 ** 9)
@@ -173,6 +184,18 @@ def execute(case, ctx):
     if clean and twin.kind == 'value' and isinstance(charged, int) and charged != K:
         ctx.report('charged_ne_performed', '%s: %d charged, %d node evaluations performed (%s)' % (what, charged, K, dict(trec.kinds)),
                    {'kind': 'charged_ne_performed'})
+    # every syntax-tree node the reference semantics evaluate is an operation (lower bound on K)
+    m = history.model_only(case['world'])
+    in_domain = True
+    for o in case['ops'][:-1]:
+        if m.run(o['prog'])[0] == 'unspec':
+            in_domain = False       # the model lost track of the state: no prediction for the last program
+    mout = m.run(op['prog'])
+    if in_domain and mout[0] == 'value' and twin.kind == 'value' and canon.canon(mout[1]) == tsig[1]:
+        ctx.probe('ops_lower_bound_checked')
+        if K < m.steps:
+            ctx.report('fewer_operations_than_nodes', '%s: the reference semantics evaluate %d syntax-tree nodes, the system performed only %d node '
+                       'evaluations (work that is not counted cannot be limited)' % (what, m.steps, K), {'kind': 'fewer_operations_than_nodes'})
     if K > 300:
         pick = sorted(set([1, 2, K - 1, K, K + 1, K + 2] + [1 + (i * 7919) % K for i in range(34)]))
         budgets = [n for n in pick if n >= 1]
